@@ -52,6 +52,10 @@ RULE = ('template trees over constant/function/table/point atoms, sequence, repe
         'SequencePT.concatenate, table concatenate, **; the same object inside several enclosing templates; controls with '
         'distinct objects), "capture" (mapped-in expressions / loop ranges that mention a loop index name), "badtable" '
         '(rejected tables); random: numpy scalar parameters, ParallelChannelPT around the root.  '
+        'Round 5: every generated input that lies inside the input class of a known finding is emitted a second time as a '
+        'correspondence-only twin (CTwin: judged by check_corr alone, the operational model describes the finding exactly), so '
+        'a change of behaviour inside such a class is still reported; table `concatenate` is described to Coq as the ONE '
+        'table it builds (entry times = sums of expressions).  '
         'Non-trivial = composite template (depth >= 2) or non-empty range.')
 TRUSTED = [
     'Coq 8.16.1 kernel + vm_compute (no native_compute)',
@@ -63,8 +67,10 @@ TRUSTED = [
     'harness: generators, template construction from the JSON case, Gallina printers, exception -> error class mapping',
 ]
 ASSUMPTIONS = [
-    'binary floating-point arithmetic is not modelled: a case in which a float takes part in arithmetic inside a '
-    'duration, count or range expression is classified Inexact by the model from its inputs and is not judged',
+    'binary floating-point arithmetic is not modelled: a case in which a float can take part in arithmetic inside a '
+    'duration, count or range expression (anywhere in the template, also in a branch that is never evaluated) is out of '
+    'the specification\'s scope (Spec.scope_prog / scope_sym: static kind inference, sound for the model: '
+    'C04_scope_prog_sound, C04_scope_sym_sound) and is not judged; this includes the sums table `concatenate` writes',
     'rational literals 1/k are generated only for k in {2,4,8} (exact as Python floats) and k in {3,5} (not judged)',
     'isclose() of the implementation (double arithmetic on float(a), float(b)) is modelled with exact rationals; generated '
     'durations stay away from the 1e-9 relative boundary (equal, < 1e-12 apart, or > 1e-4 apart)',
@@ -534,8 +540,9 @@ class Gen:
             elif r2 < 0.3 and scope['times']:
                 # a parameter that is also used outside of the loop carries the name of the loop index
                 other = rng.choice(scope['times'])
-                body = rename_var(body, idx, other)
-                idx = other
+                renamed = rename_var(copy.deepcopy(body), idx, other)
+                if other in free_params(renamed):     # (else a mapping inside rebinds that name: LoopIndexNotUsedException)
+                    body, idx = renamed, other
             return {'t': 'for', 'idx': idx, 'start': a, 'stop': b, 'step': s, 'body': body}
         if r < 0.86:
             return self.mapped(scope, chans, depth - 1, atomic=False, force=force)
@@ -1939,30 +1946,31 @@ def search_failing(ctx, broken):
 
 
 MANIFEST = {
-    'level_text': 'Proof (Coq, unbounded in tree shape, counts, ranges, parameters; ALL template kinds incl. for-loop closed '
-                  'form, per-channel tables, atomic arithmetic, constraints, single-waveform rendering, MappingPT with '
-                  'simultaneous parameter substitution and channel mappings incl. dropped channels, threaded to the atoms by '
-                  '`resolve`): (1) C04_symbolic_agrees: every class\'s duration expression evaluates to the denoted duration; '
-                  'C04_channel_mapping_irrelevant_for_durations; (2) C04_program_views_agree: Loop.duration = duration of '
-                  'to_waveform (which does not raise) = sum of pieces = denoted duration, empty program <=> 0; (3) C04_agree: '
-                  'under the executable guard (binary and decimal reading of the code\'s comparisons build the same program, '
-                  'none of the five modelled finding classes is met, the leaves define the same channels) the code accepts '
-                  'and all four views equal the symbolic duration, with no reference to the specification; C04_guard_exact.  '
-                  'One refuting witness per class (negative count, negative duration, near-integer, unequal parallel parts, '
-                  'binary-vs-decimal reading, all channels of an atom dropped, zero-length function leaf -> to_waveform '
-                  'raises).  Range closed form for both step signs; no accumulation.  Round 4: the repaired iteration count '
-                  '(floor form, /repo 86f615f) equals the model\'s ceiling form on all integer ranges '
-                  '(C04_step_count_forms_agree); substituting a parameter mapping into an expression is evaluation in the '
-                  'extended environment (C04_substitution_is_environment_extension; lifted to mapped atoms, not yet to all '
-                  'template kinds).  Not in the model, judged by a Python oracle on the observation only: make_compatible / '
-                  'cleanup / flatten_and_balance leave the three program durations unchanged.  The class "all channels '
-                  'dropped" is guarded at every atom, also where a dropped part of a parallel composition would be harmless '
-                  '(guard not tight there; judged by the correspondence); "leaves define the same channels" is a guard '
-                  '(g_uniform), not a proved invariant of channel-consistent templates.',
+    'level_text': 'Proof (Coq, unbounded in tree shape, counts, ranges, parameters) about an operational MODEL of the duration '
+                  'side of all template kinds (for-loop closed form, per-channel tables, atomic arithmetic, constraints, '
+                  'single-waveform rendering, MappingPT with simultaneous substitution and channel mappings threaded to the '
+                  'atoms), tied to the code case by case.  Proved in full: C04_symbolic_agrees (every class\'s duration '
+                  'expression evaluates to the denoted duration `den`), C04_pieces_sum_is_loop_duration, '
+                  'C04_waveform_duration_is_loop_duration + C04_created_programs_wellformed, range closed form for both step '
+                  'signs, C04_step_count_forms_agree (code\'s floor form = model\'s ceiling form on integer ranges), the '
+                  'expression-level substitution lemma, and (round 5) C04_scope_prog_sound / C04_scope_sym_sound: the '
+                  'specification\'s own static scope analysis never judges a case in which the model computes with floats.  '
+                  'Proved under guards: C04_program_views_agree / C04_agree (Loop.duration = single waveform = sum of pieces = '
+                  'symbolic duration, empty program <=> 0) under g_view (binary and decimal reading build the same program), '
+                  '"no finding class met" and g_uniform (all leaves define the same channels) - g_view and g_uniform are '
+                  'conditions on the model\'s OUTPUT, not input conditions; that to_waveform exists is therefore assumed, '
+                  'its value is proved.  One refuting witness per finding class.  Tested only (not proved): that the '
+                  'implementation represents ints/decimals exactly and does not accumulate error (the float->decimal '
+                  'conversion is an input of the model; C04_no_accumulation is only the identity n*d of the model\'s rational '
+                  'arithmetic), the constant-waveform merging paths of to_waveform / to_single_waveform (arithmetic sum in '
+                  'the model), make_compatible / cleanup / flatten_and_balance (Python oracle on the observation), '
+                  'duration.evaluate_in_scope (Python oracle), numpy parameter types, ParallelChannelPT.  The guard for "all '
+                  'channels dropped" fires at every such atom, also a harmless dropped part of a parallel composition.',
     'level_note': 'Trusted: Coq kernel, sympy as the oracle for the exact value of the closed forms (compared case by case), '
-                  'shortest-decimal float conversion (C14), harness.  Binary float arithmetic inside duration expressions '
-                  'is outside the property and not judged (counted as excluded_float_arith); isclose is modelled on exact '
-                  'rationals.',
+                  'shortest-decimal float conversion (C14), harness.  check_spec uses Spec.v only (den, scope_prog, scope_sym, '
+                  'zero_step).  Binary float arithmetic inside duration expressions is outside the property and not judged '
+                  '(counted as excluded_float_arith); isclose is modelled on exact rationals.  Inputs inside a known-finding '
+                  'class are additionally judged by the model alone (twins).',
     'technique': 'Coq proof by induction over template/program trees (simulation between the code model and its guarded '
                  'variant) + correspondence check (model and specification evaluated in coqc on the implementation\'s '
                  'observations)',
